@@ -70,6 +70,7 @@ package task
 // waitErr: what the errgroup reported (the first failure in time): runDeps must hand exactly that on
 //@ ghost var waitErr error scratch
 //@ ghost var depsAwaited bool scratch
+//@ ghost var dirLooked bool scratch
 //@ ghost var depErr error scratch
 //@ ghost table depClo(t *ast.Task, j int) ref local
 
@@ -106,7 +107,7 @@ package task
 // cancelled is still inside its deferred commands, and those finish before the caller of the task goes on
 //@   init depsAwaited := false
 //@   site (*Group).Wait#1 ghost depsAwaited := true
-//@   ensures depsAwaited                                                                               [C14,C02,C01]
+//@   ensures depsAwaited                                                                               [C14,C02,C01,C04,C05,C03]
 
 // ---- C12: the listing options are the flags, and "list" is asked for when either of them is set ------------
 //@ func NewListOptions
@@ -171,6 +172,10 @@ package task
 // sibling that merely waits (it has handed its slot back) never keeps an independent dep from being started.
 // (The groups of the reader and of the graph merge start no tasks; they may be limited.)
 //@ callers maybe-absent errgroup.(*Group).SetLimit errgroup.(*Group).TryGo : taskfile.* ast.*             [C07]
+// A context whose cancellation CAUSE carries the outcome of an execution is made in startExecution only (for the
+// execution it registers): no other context with a cause - a shared "finished" stand-in, say - can end up in the table
+// that later callers read outcomes from
+//@ callers context.WithCancelCause : (*Executor).startExecution                                            [C03,C06,C01,C13]
 
 // A slot is taken by sending on the semaphore channel and given back by receiving from it. The channel has
 // capacity N, so at most N goroutines hold a slot (assumed channel semantics).
@@ -274,6 +279,12 @@ package task
 //@ ghost var depsExit bool scratch
 //@ func (*Executor).RunTask$1
 //@   implements taskBody
+// no mutex is held while the body waits for other tasks or runs commands (deps, task: calls, deferred commands): a
+// lock kept across them - the per-task mkdir mutex, say - makes a second call of the same task wait for the first
+// while the first may be waiting for a slot the second holds
+//@   site (*Executor).runDeps#0 requires lockfree()                                                    [C07,C18]
+//@   site (*Executor).runCommand#0 requires lockfree()                                                 [C07,C18]
+//@   site (*Executor).runDeferred#0 requires lockfree()                                                [C07,C18]
 // a failing command of a dependency makes the run of the task that was asked for a failed run (error class
 // 201, the command's own status with --exit-code), exactly like a failure of its own commands
 //@   init depsErr := nil
@@ -398,6 +409,13 @@ package task
 //@   modifies heap, fs_exists, fs_ver
 //@   preserves $RUNDATA
 //@   blocks
+// EVERY call looks whether the directory of the (compiled) task is there and makes it when it is not: two calls of one
+// task may have different directories (a templated dir), and a directory may be gone again by the second call
+//@   init dirLooked := false
+//@   site os.Stat#0 requires arg0 == t.Dir                                                              [C08,C12]
+//@   site os.Stat#1 ghost dirLooked := true
+//@   site os.MkdirAll#0 requires arg0 == t.Dir                                                          [C08,C12]
+//@   ensures result == nil && t.Dir != "" ==> dirLooked                                                 [C08,C12]
 
 // Compiling a task builds a fresh copy (C11 examines this frame); trusted here.
 //@ func (*Executor).CompiledTask
@@ -469,6 +487,9 @@ package task
 //@   ensures cycleSeen ==> result != nil && dyn(result) == type(*errors.TaskCalledTooManyTimesError)    [C07]
 //@   ensures result == nil && h != "" ==> execOK(h)   -- first caller and waiters alike return nil only for a successful execution  [C01,C06,C13,C02]
 //@   nosite delete                     -- an execution key, once registered, is never unregistered     [C06]
+// ... nor re-pointed: what is registered for h is the context of THIS execution (whose cancellation cause is its
+// outcome), once, before it starts; a call that arrives after the execution is over reads the same outcome from it
+//@   site mapstore#1 requires arg0 == e.executionHashes && arg1 == h && arg2 == runCtx                  [C03,C06,C01,C13]
 // A waiter's error IS the error the one real execution ended with (the raw exit status, seen by errors.As and by
 // task-level ignore_error exactly as the first caller sees it), not a value derived from it
 //@   site context.Cause#1 ghost sharedCause := result
@@ -711,7 +732,7 @@ package task
 //@ ghost var envInKey bool scratch
 //@ ghost var dynCtx context.Context scratch
 //@ func (*Compiler).HandleDynamicVar
-//@   site execext.RunCommand#0 requires held(c.muDynamicCache)                                                 [C11,C18]
+//@   site execext.RunCommand#0 requires held(c.muDynamicCache)                                                 [C11,C18,C09]
 // only the output of a SUCCESSFUL evaluation is remembered (a failure in one task's directory must not become
 // the value another task gets for the same command text)
 //@   init evalFailed := false
